@@ -1978,6 +1978,27 @@ mod crypto {
 #[cfg(feature = "ring")]
 pub use crypto::{load_encrypted_file, save_encrypted_file, CryptoReader, CryptoWriter};
 
+/// Adapter for the writer handed to the bzip2 encoder: the encoder (bzip2 0.4) retries forever when
+/// the underlying writer reports that it cannot accept any more bytes (`Ok(0)`, e.g. a full `&mut [u8]`).
+/// Report that condition as the error `write_all` would produce instead.
+#[cfg(feature = "bzip2")]
+struct WriteZeroIsError<W: Write>(W);
+#[cfg(feature = "bzip2")]
+impl<W: Write> Write for WriteZeroIsError<W> {
+    fn write(&mut self, buf: &[u8]) -> std::io::Result<usize> {
+        match self.0.write(buf) {
+            Ok(0) if !buf.is_empty() => Err(std::io::Error::new(
+                std::io::ErrorKind::WriteZero,
+                "failed to write whole buffer",
+            )),
+            other => other,
+        }
+    }
+    fn flush(&mut self) -> std::io::Result<()> {
+        self.0.flush()
+    }
+}
+
 impl<'a, W: Write + 'a> Serializer<'a, W> {
     /// Writes a binary bool to the output
     #[inline(always)]
@@ -2208,7 +2229,8 @@ impl<'a, W: Write + 'a> Serializer<'a, W> {
 
                 #[cfg(feature = "bzip2")]
                 {
-                    let mut compressed_writer = bzip2::write::BzEncoder::new(writer, Compression::best());
+                    let mut compressed_writer =
+                        bzip2::write::BzEncoder::new(WriteZeroIsError(writer), Compression::best());
                     if let Some(schema) = with_schema {
                         let mut schema_serializer = Serializer::<bzip2::write::BzEncoder<W>>::new_raw(
                             &mut compressed_writer,
@@ -2226,7 +2248,7 @@ impl<'a, W: Write + 'a> Serializer<'a, W> {
                     // Finish the bzip2 stream explicitly. Otherwise the end-of-stream trailer is written
                     // by the Drop of BzEncoder, which ignores write errors (the save would be reported
                     // as successful although the output is incomplete).
-                    let writer = compressed_writer.finish()?;
+                    let mut writer = compressed_writer.finish()?;
                     writer.flush()?;
                     return Ok(());
                 }
